@@ -14,7 +14,10 @@ def run(ctx):
         raise vf.Infra("Levels emitted nothing")
     cases = ctx.write_cases("levels.ndjson", r1.emitted)
     res = ctx.vh(["levels", "--cases", cases, "--top", "5", "--warnpt", "3"], timeout=3000)
+    # every enabled reference receives the intact event whatever kind of appender precedes it
+    mix = ctx.vh(["sinkmix"], timeout=600)
     rep.absorb(res)
+    rep.absorb(mix)
     rep.exhaustive = True
     rep.rule = ("every list of 1..%d appender references over a 6-point level lattice (lower bound, optional "
                 "explicit upper bound) x every logger range x 6 event levels is model-checked; the replayer runs "
@@ -22,7 +25,8 @@ def run(ctx):
                 "the rolling-file (sync/async x separate) / console / file logger kinds with every range; per case "
                 "an order-preserving map onto the 11 concrete level codes (incl. NONE, custom AUDIT/TOP, MAX) is "
                 "drawn from the seed, ranges are rendered in random letter case, and 14 fixed-level entry points "
-                "plus Record at all 11 levels are logged with unique ids.  Non-trivial = distinct (kind, range, "
+                "plus Record at all 11 levels are logged with unique ids; 96 configurations mixing console / file / rolling-file / "
+                "discard appenders with recording appenders in every order (each enabled reference gets the intact event).  Non-trivial = distinct (kind, range, "
                 "reference list)." % (4 if thorough else 3))
     rep.assumptions = ["TLC/SANY", "Go toolchain", "recording appender plugin", "rotation 'h' registered via RegisterTimeRotation",
                        "explicit '~MAX' on a reference is not generated (property silent)"]
